@@ -18,6 +18,11 @@ DIRECTED = [
     ('ec', 'unreduced-zero', {'s1': 'zero', 's2': 'unreduced1'}, [{'all': False, 'check': 'CheckECKeySmallDifference', 'batch': ['s1', 's2']}]),
     ('ecdsa', 'many-honest-one-issuer', {'s1': 'healthy12', 's2': 'healthyA'},
      [{'all': False, 'check': 'CheckNonceGeneralized', 'batch': ['s1']}, {'all': True, 'check': 'ALL', 'batch': ['s2', 's1']}]),
+    ('ecdsa', 'full-windows', {'s1': 'healthy24', 's2': 'healthy48', 's3': 'healthy25', 's4': 'healthy23'},
+     [{'all': True, 'check': 'ALL', 'batch': ['s1']}, {'all': False, 'check': 'CheckNonceCommonPostfix', 'batch': ['s2', 's3']},
+      {'all': False, 'check': 'CheckNonceMSB', 'batch': ['s2', 's4']}, {'all': False, 'check': 'CheckNonceGeneralized', 'batch': ['s3', 's1']}]),
+    ('ecdsa', 'five-windows', {'s1': 'healthy120'},
+     [{'all': False, 'check': 'CheckNonceCommonPostfix', 'batch': ['s1']}, {'all': False, 'check': 'CheckNonceCommonPrefix', 'batch': ['s1']}]),
     ('rsa', 'size-sweep-1', {'s1': 'bits100', 's2': 'bits127', 's3': 'bits128', 's4': 'bits129', 's5': 'bits255', 's6': 'bits256', 's7': 'bits257',
                              's8': 'bits383', 's9': 'bits384', 's10': 'bits385'},
      [{'all': True, 'check': 'ALL', 'batch': ['s%d' % i for i in range(1, 11)]}]),
@@ -25,6 +30,8 @@ DIRECTED = [
                              's8': 'bits769', 's9': 'bits1023', 's10': 'bits1025'},
      [{'all': True, 'check': 'ALL', 'batch': ['s%d' % i for i in range(10, 0, -1)]}]),
     ('rsa', 'every-degenerate', {'s1': 'prime', 's2': 'even', 's3': 'square', 's4': 'pow2'}, [{'all': True, 'check': 'ALL', 'batch': ['s1', 's2', 's3', 's4']}]),
+    ('rsa', 'keypair-table-prefix', {'s1': 'kptab2047', 's2': 'kptab2048', 's3': 'kptab1025', 's4': 'kptab65', 's5': 'kptab64', 's6': 'kptab3071'},
+     [{'all': False, 'check': 'CheckKeypairDenylist', 'batch': ['s1', 's2', 's3', 's4', 's5', 's6']}, {'all': True, 'check': 'ALL', 'batch': ['s2', 's1']}]),
     ('rsa', 'tiny', {'s1': 'bits64', 's2': 'bits65', 's3': 'oddlen', 's4': 'empty_e'}, [{'all': True, 'check': 'ALL', 'batch': ['s4', 's3', 's2', 's1']}]),
 ]
 
